@@ -31,10 +31,20 @@ UNIVERSE = [
     (5, 'A', 'a', V1, V1, V1, ('x', 'y'), 'e8'),
     (1, 'A', 'a', V1, V1, V1, ('x', 'y'), 'e9-overwrites-e1'),
 ]
+# always present in addition (not part of the subset enumeration):
+#  - an author whose name extends another author's name (a / ab)
+#  - an entry whose bytes are identical to those of e1 and of e4 (same content
+#    under different keys: the blob store keeps one copy, the catalogue needs both)
+EXTRA = [
+    (2, 'A', 'ab', V1, V1, V1, ('x', 'y'), 'x1-prefix-named-author'),
+    (4, 'B', 'b', V1, V1, V1, ('x', 'y'), 'x2-same-bytes-as-e1'),
+]
+SAME_BYTES = {'x2-same-bytes-as-e1': 'e1', 'e4': 'e1'}
 CONFIGS = {'base': (V1, V1, V1), 'alg': (VA, V1, V1), 'sv': (V1, VS, V1), 'val': (V1, V1, VV)}
 
 
 def content_of(tag, k):
+    tag = SAME_BYTES.get(tag, tag)      # several entries share their bytes
     return {'who': tag, 'key': k, 'nested': [1, (2, 3), {'z': tag}]}
 
 
@@ -82,9 +92,11 @@ def all_loads(ctx, ref, rep, phase, quick_subset=False):
     runs = (1, 2, 3, 4, 6) if quick_subset else (1, 2, 3, 4, 5, 6)
     for run in runs:
         for tgt in ('A', 'B', 'C'):
-            for alg in ('a', 'b'):
+            for alg in ('a', 'b', 'ab'):
                 for cfg, (av, sv, vv) in CONFIGS.items():
                     if quick_subset and cfg != 'base' and tgt != 'A':
+                        continue
+                    if alg == 'ab' and cfg != 'base':
                         continue
                     sx = mini.Val('SENTINEL', ver=dawgie.VERSION(*vv))
                     sy = mini.Val('SENTINEL', ver=dawgie.VERSION(*vv))
@@ -142,7 +154,7 @@ def work(args):
     for mask in range(1 << len(UNIVERSE)):
         if mask % nshards != shard:
             continue
-        content = [e for i, e in enumerate(UNIVERSE) if mask >> i & 1]
+        content = [e for i, e in enumerate(UNIVERSE) if mask >> i & 1] + EXTRA
         rep = {'content': [e[-1] for e in content]}
         w = world.StoreWorld()
         try:
@@ -210,7 +222,7 @@ def replay(data):
     ctx = common.Ctx('C06', 'quick', 0, LEVEL)
     try:
         ref = {}
-        for e in UNIVERSE:
+        for e in UNIVERSE + EXTRA:
             if e[-1] in r['content']:
                 store(e)
                 ref_put(ref, e)
